@@ -1,4 +1,5 @@
 import I18n.Model.PyBrace
+import I18n.Model.PyBraceG
 import I18n.Model.PerlBrace
 import I18n.Spec.StrFormat
 import I18n.Driver.Util
@@ -102,6 +103,9 @@ def showFormat : Except FErr Unit → String
 def handle (op : String) (args : List String) : String :=
   match op, args with
   | "parse", [h] => showResult (PyBrace.parse (Driver.unhexChars h))
+  -- the parser with `Field.__init__` / `add_argument` REGENERATED from lib/strformat/pybrace.py (`I18n.Generated.PyBraceField`)
+  | "gparse", [h] => showResult (PyBrace.G.parseG (Driver.unhexChars h))
+  | "gparse-cfg", [m, d, h] => showResult (PyBrace.G.parseWithG { ssizeMax := m.toNat!, digitLimit := d.toNat! } (Driver.unhexChars h))
   | "parse-cfg", [m, d, h] => showResult (PyBrace.parseWith { ssizeMax := m.toNat!, digitLimit := d.toNat! } (Driver.unhexChars h))
   | "cpy-parse", [h] => showMarkup (Spec.StrFormat.markup (Driver.unhexChars h))
   | "cpy-format", [h, a] => showFormat (Spec.StrFormat.format (Driver.unhexChars h) (parseArgs a))
